@@ -22,7 +22,7 @@ RULE = (
 ASSUMPTIONS = [
     "with tied observations carrying different array weights, the association of weights to plotting positions is only fixed up to the tie order: 'array' weights are a function of x (unique reference); 'random' weights are unrelated to x and, where ties with different weights occur, only the invariances (joint permutation, weight scaling) are asserted",
     "free delta: fmin's own tolerance (1e-4) bounds how close the result is to the local minimiser; optimality is judged against delta*(1 +- 1e-3)",
-    "local optimality of a free delta is only judged where (0.5/n)^(1/delta) >= 1e-10, i.e. where the plotting-position transform is computable in double precision (degenerate samples drive delta towards 0 where no interior minimum exists)",
+    "local optimality of a free delta is only judged where (0.5/n)^(1/delta) >= 1e-10, i.e. where the plotting-position transform is computable in double precision (degenerate samples drive delta towards 0 or towards infinity, delta > 1e5, where no interior minimum exists in the computable region)",
 ]
 
 
@@ -150,7 +150,9 @@ def check_lsq(case, ctx):
         return
     # free delta: local minimiser of the x-space weighted error
     n_all = len(x)
-    at_float_limit = (0.5 / n_all) ** (1.0 / delta) < 1e-10
+    # ... and the other end: fmin may run off to delta -> infinity (the Gumbel-type limit), where 1 - p^(1/delta) ~ 1/delta
+    # is only known to a relative precision eps*delta
+    at_float_limit = (0.5 / n_all) ** (1.0 / delta) < 1e-10 or delta > 1e5
     if not fixed_delta and at_float_limit:
         # the smallest plotting position to the power 1/delta is at the rounding unit: the quantile
         # transform is no longer computable, no interior minimum exists in the computable region
